@@ -65,7 +65,8 @@ def run(ctx):
                    "composition of results is decided by execution on sampled inputs (minifiber) against the chained dense oracle"]
     rng = random.Random(ctx.seed * 8191 + 5)
     k = 1 if ctx.tier == "quick" else 8
-    recs = pool.collect(ctx, [dict(gen="g5", count=60 * k, modes=["plain"], nexec=2), dict(gen="g5conv", count=20 * k, modes=["plain"], nexec=2), dict(gen="g5conv2", count=12 * k, modes=["plain"], nexec=0)])
+    recs = pool.collect(ctx, [dict(gen="g5", count=60 * k, modes=["plain"], nexec=2), dict(gen="g5conv", count=20 * k, modes=["plain"], nexec=2), dict(gen="g5conv2", count=12 * k, modes=["plain"], nexec=0),
+                              dict(gen="g5", count=20 * k, modes=["spacetime"], nexec=0)])
     reqs, metas = [], []
     for r in recs:
         if not r["ok"]:
@@ -77,7 +78,7 @@ def run(ctx):
         full = r["text"]
         prev_len, issued_before = 0, 0
         for i in range(n):
-            cp = specs.compile_spec(prefix(d, i + 1), "plain")
+            cp = specs.compile_spec(prefix(d, i + 1), r["mode"])
             ok_prefix = cp.ok and (full == cp.text or full.startswith(cp.text + "\n"))
             ctx.ob(ok_prefix)
             if not ok_prefix:
@@ -86,7 +87,7 @@ def run(ctx):
                 break
             seg = cp.text[prev_len:].lstrip("\n")
             prev_len = len(cp.text)
-            ca = specs.compile_spec(alone(d, i), "plain")
+            ca = specs.compile_spec(alone(d, i), r["mode"])
             if not ca.ok:
                 ctx.ob(False)
                 ctx.violation(dict(kind="standalone-rejected", yaml=d, einsum_index=i, error=ca.err_msg,
